@@ -8,6 +8,7 @@ import (
 	"os"
 	"os/exec"
 	"runtime"
+	"sort"
 	"strconv"
 	"strings"
 	"sync"
@@ -94,6 +95,18 @@ func genCode(r *gal.Rng, nkeys int, withDump bool) int64 {
 }
 
 func oneConcRun(r *gal.Rng, kind string, cp, g, perG, nkeys int) concRun {
+	done := make(chan concRun, 1)
+	rr := r.Fork()
+	go func() { done <- oneConcRun0(rr, kind, cp, g, perG, nkeys) }()
+	select {
+	case x := <-done:
+		return x
+	case <-time.After(30 * time.Second):
+		return concRun{Kind: kind, Cap: cp, G: g, Panics: []string{fmt.Sprintf("DEADLOCK: %d goroutines did not finish within 30 s (cap %d)", g, cp)}}
+	}
+}
+
+func oneConcRun0(r *gal.Rng, kind string, cp, g, perG, nkeys int) concRun {
 	c := valid.NewLRU(cp)
 	var stamp, ready int64
 	var wg sync.WaitGroup
@@ -155,6 +168,101 @@ func oneConcRun(r *gal.Rng, kind string, cp, g, perG, nkeys int) concRun {
 	return res
 }
 
+// scriptedRun: a sequential prefix, one call per goroutine started together, a sequential suffix that probes the
+// final state (Dump, then Load of every key); every call is recorded with its stamps
+func scriptedRun(cp int, pre []int64, conc []int64, post []int64) concRun {
+	done := make(chan concRun, 1)
+	go func() { done <- scriptedRun0(cp, pre, conc, post) }()
+	select {
+	case r := <-done:
+		return r
+	case <-time.After(5 * time.Second): // a call that never returns (a lock left held): the goroutines are abandoned
+		return concRun{Kind: "small", Cap: cp, G: len(conc), Panics: []string{fmt.Sprintf("DEADLOCK: calls did not return within 5 s (cap %d, prefix %v, concurrent %v)", cp, pre, conc)}}
+	}
+}
+
+func scriptedRun0(cp int, pre []int64, conc []int64, post []int64) concRun {
+	c := valid.NewLRU(cp)
+	var stamp, ready int64
+	res := concRun{Kind: "small", Cap: cp, G: len(conc), Ops: len(pre) + len(conc) + len(post)}
+	rec := func(t int, code int64) concEv {
+		inv := atomic.AddInt64(&stamp, 1)
+		out := doOp(c, code)
+		ret := atomic.AddInt64(&stamp, 1)
+		return concEv{T: t, Code: code, Res: out, Inv: inv, Ret: ret}
+	}
+	func() {
+		defer func() {
+			if p := recover(); p != nil {
+				res.Panics = append(res.Panics, fmt.Sprint(p))
+			}
+		}()
+		for _, code := range pre {
+			res.Events = append(res.Events, rec(0, code))
+		}
+	}()
+	evs := make([]concEv, len(conc))
+	var wg sync.WaitGroup
+	var mu sync.Mutex
+	for t := range conc {
+		wg.Add(1)
+		go func(t int) {
+			defer wg.Done()
+			defer func() {
+				if p := recover(); p != nil {
+					mu.Lock()
+					res.Panics = append(res.Panics, fmt.Sprint(p))
+					mu.Unlock()
+				}
+			}()
+			atomic.AddInt64(&ready, 1)
+			for atomic.LoadInt64(&ready) < int64(len(conc)) {
+			}
+			evs[t] = rec(t, conc[t])
+		}(t)
+	}
+	wg.Wait()
+	res.Events = append(res.Events, evs...)
+	func() {
+		defer func() {
+			if p := recover(); p != nil {
+				res.Panics = append(res.Panics, fmt.Sprint(p))
+			}
+		}()
+		for _, code := range post {
+			res.Events = append(res.Events, rec(0, code))
+		}
+	}()
+	res.Len = c.Len()
+	if d := c.Dump(); d != "" {
+		res.Lines = len(strings.Split(d, "\n"))
+	}
+	return res
+}
+
+// the shape of a recorded history without its absolute stamps: which calls, which results, which order of invocations
+// and returns (two runs of the same shape are the same case)
+func historyShape(run concRun) string {
+	type pt struct {
+		stamp int64
+		tag   string
+	}
+	var pts []pt
+	for i, e := range run.Events {
+		pts = append(pts, pt{e.Inv, fmt.Sprintf("i%d", i)}, pt{e.Ret, fmt.Sprintf("r%d", i)})
+	}
+	sort.Slice(pts, func(a, b int) bool { return pts[a].stamp < pts[b].stamp })
+	var b strings.Builder
+	fmt.Fprintf(&b, "%d|", run.Cap)
+	for _, e := range run.Events {
+		fmt.Fprintf(&b, "%d:%v;", e.Code, e.Res)
+	}
+	for _, p := range pts {
+		b.WriteString(p.tag)
+	}
+	return b.String()
+}
+
 // worker: lruconc <seed> <nsmall> <nlarge> <largeOps>
 func lruConcWorker(args []string) {
 	seed, _ := strconv.ParseUint(args[0], 10, 64)
@@ -162,9 +270,7 @@ func lruConcWorker(args []string) {
 	nlarge, _ := strconv.Atoi(args[2])
 	largeOps, _ := strconv.Atoi(args[3])
 	r := gal.NewRng(seed)
-	w := bufio.NewWriter(os.Stdout)
-	defer w.Flush()
-	enc := json.NewEncoder(w)
+	enc := json.NewEncoder(os.Stdout) // unbuffered: what was recorded survives a worker that has to be killed
 	for i := 0; i < nsmall; i++ {
 		g := r.Range(2, 4)
 		perG := 2
@@ -172,6 +278,50 @@ func lruConcWorker(args []string) {
 			perG = r.Range(2, 4)
 		}
 		_ = enc.Encode(oneConcRun(r, "small", r.Intn(3), g, perG, 3))
+	}
+	// a full cache, then one Load of a resident key races one Store of a new key (and variants); afterwards the final
+	// state is probed.  The same shape is emitted once.
+	seen := map[string]bool{}
+	stuck := 0
+	for i := 0; i < nsmall*50; i++ {
+		cp := 1 + i%2
+		pre := []int64{0*1000000 + 0*100 + 1}
+		if cp == 2 {
+			pre = append(pre, 0*1000000+1*100+2)
+		}
+		var conc []int64
+		switch i % 9 {
+		case 5:
+			conc = []int64{0*1000000 + 2*100 + 3, 3 * 1000000} // Store(k2) || Len
+		case 6:
+			conc = []int64{0*1000000 + 2*100 + 3, 2*1000000 + 0*100} // Store(k2) || Delete(k0)
+		case 7:
+			conc = []int64{0*1000000 + 2*100 + 3, 3 * 1000000, 3 * 1000000}
+		case 8: // capacity 0: Store(k0) || Delete(k0) on an empty cache
+			cp, pre = 0, nil
+			conc = []int64{0*1000000 + 0*100 + 1, 2*1000000 + 0*100}
+		case 0:
+			conc = []int64{1*1000000 + 0*100, 0*1000000 + 2*100 + 3} // Load(k0) || Store(k2)
+		case 1:
+			conc = []int64{1*1000000 + 0*100, 0*1000000 + 2*100 + 3, 0*1000000 + 3*100 + 4}
+		case 2:
+			conc = []int64{0*1000000 + 0*100 + 5, 0*1000000 + 2*100 + 3} // Store(k0) (existing) || Store(k2)
+		case 3:
+			conc = []int64{2*1000000 + 0*100, 0*1000000 + 2*100 + 3} // Delete(k0) || Store(k2)
+		default:
+			conc = []int64{1*1000000 + 0*100, 2*1000000 + 0*100, 0*1000000 + 2*100 + 3} // Load || Delete || Store
+		}
+		post := []int64{3 * 1000000, 4 * 1000000, 1*1000000 + 0*100, 1*1000000 + 1*100, 1*1000000 + 2*100, 1*1000000 + 3*100}
+		run := scriptedRun(cp, pre, conc, post)
+		if sh := historyShape(run); !seen[sh] || len(run.Panics) > 0 {
+			seen[sh] = true
+			_ = enc.Encode(run)
+		}
+		if len(run.Panics) > 0 {
+			if stuck++; stuck >= 3 { // enough evidence; every further one costs the watchdog's delay
+				break
+			}
+		}
 	}
 	for i := 0; i < nsmall*3; i++ { // check-then-act windows: 3..8 goroutines hammer one key
 		_ = enc.Encode(oneConcRun(r, "contend", r.Range(1, 2), r.Range(3, 8), 24, 1))
@@ -211,10 +361,10 @@ func runC10(c *Ctx) error {
 		var werr error
 		select {
 		case werr = <-done:
-		case <-time.After(240 * time.Second):
+		case <-time.After(150 * time.Second):
 			_ = cmd.Process.Kill()
-			violations = append(violations, map[string]interface{}{"kind": "deadlock-or-timeout", "worker": wi, "note": "worker did not finish within 240 s"})
-			continue
+			<-done
+			violations = append(violations, map[string]interface{}{"kind": "deadlock-or-timeout", "worker": wi, "note": "worker did not finish within 150 s"})
 		}
 		se := stderr.String()
 		if strings.Contains(se, "DATA RACE") {
